@@ -16,7 +16,7 @@ PY_CORE = "PyLibCore PySrcCore PySrcCoreFacts"                    # succession_d
 PY_CORE2 = PY_CORE + " PyLibCore2 PySrcCore2 PySrcCore2Facts PySrcInitFacts"    # succession_diagram.py: skip_to_minimal, skip_remaining, depth, reclaim_node_data
 PY_MIN = "PyLib PyLibSd PyLibCore PyLibSd2 PySrcSdBase PySrcSdMin PySrcSdMinFacts"   # _sd_algorithms/expand_minimal_spaces.py
 PY_PERC = "PyLib PyLibSd PyLibPerc PySrcPerc PySrcPercFacts PyLibDrivers PySrcDrivers PySrcDriversFacts"       # space_utils.percolate_space_strict, percolation_conflicts
-PY_CONTROL = "PyLib PyLibSd PyLibPerc PyLibCore PyLibControl PySrcControl PySrcControlFacts PySrcFindDriversFacts"    # control.find_drivers, drivers_of_succession
+PY_CONTROL = "PyLib PyLibSd PyLibPerc PyLibCore PyLibControl PySrcControl PySrcControlFacts PySrcFindDriversFacts PySrcControlCorollaries"    # control.find_drivers, drivers_of_succession
 PY_ASEEDS = PY_MIN + " Candidates Blocks ASeeds PySrcSdASeeds PySrcSdASeedsFacts"     # _sd_algorithms/expand_attractor_seeds.py
 EXTRA_IMPORTS = {"C02": PY_SD + " " + PY_CORE2 + " PySrcEndToEnd", "C03": PY_SD + " " + PY_ASEEDS + " PySrcComplFacts", "C04": PY_SD + " " + PY_CORE, "C05": PY_CORE2 + " " + PY_MIN, "C13": PY_SD + " " + PY_TARGET + " " + PY_ASEEDS + " PySrcTermFacts", "C14": PY_CORE2, "C15": PY_SD + " " + PY_TARGET + " " + PY_ASEEDS, "C16": "PyLib PyLibPickle PySrcPickle PySrcPickleFacts " + PY_CORE2,
                  "C06": PY_SPACE + " " + PY_TARGET + " PySrcEndToEndControl " + PY_CONTROL, "C07": PY_CONTROL, "C10": PY_PLACE, "C11": PY_PERC, "C19": PY_SD + " " + PY_CORE, "C20": PY_KEY + " " + PY_CORE2}
@@ -268,6 +268,7 @@ forces it, the final trap space meets the target and every minimal trap space in
            ("source_is_subspace", "py_is_subspace_spec", "translator tie: the function generated from the CURRENT source of space_utils.is_subspace equals the model's subspace"),
            ("source_intersect", "py_intersect_spec", "... and space_utils.intersect the model's intersect"),
            ("control_after_any_plain_history", "control_after_plain_history_sound", "the whole call -- target-directed expansion of ANY plainly reached diagram, then succession control with either setting of skip_feedforward_successions -- reports only interventions that satisfy the property"),
+           ("source_text_find_drivers_force", "py_find_drivers_force", "C06 for the SOURCE TEXT of control.find_drivers: every override the generated function reports forces the motif from the assumed trap space"),
            ("source_find_drivers", "py_find_drivers_spec", "translator tie: control.find_drivers / drivers_of_succession as generated from the source compute the model's functions (whose reported overrides force the motif: find_drivers_force)"), ("source_drivers_of_succession", "py_drivers_of_succession_spec", None),
            ("source_text_end_to_end_control", "py_control_after_any_history_sound", "C06 with the target-directed expansion AS WRITTEN IN THE SOURCE (generated public method), after any history"),
            ("source_public_expand_to_target", "py_api_expand_to_target_spec", None),
@@ -284,7 +285,9 @@ Model: Control.find_drivers (size classes in ascending order, supersets of found
 successions_spec / successions_nodup: the successions are exactly the chains of reduced motifs along all root
 paths to the end nodes, one motif per edge, each once; target_expansion_post: what the target-directed
 expansion expands.""",
- theorems=[("source_find_drivers", "py_find_drivers_spec", "translator tie: the function GENERATED from the current text of control.find_drivers (PySrcControl.v; embedding PyLibControl.v: combinations, product, the dict comprehensions, the minimality test) computes the model's find_drivers for both strategies, any bound, any forbidden set and any assumption"),
+ theorems=[("source_text_find_drivers_sound", "py_find_drivers_sound", "C07 for the SOURCE TEXT of control.find_drivers (generated function): every reported override forces, avoids forbidden variables, respects the bound; the list is complete and minimal"),
+           ("source_text_find_drivers_complete", "py_find_drivers_complete", None), ("source_text_find_drivers_minimal", "py_find_drivers_minimal", None),
+           ("source_find_drivers", "py_find_drivers_spec", "translator tie: the function GENERATED from the current text of control.find_drivers (PySrcControl.v; embedding PyLibControl.v: combinations, product, the dict comprehensions, the minimality test) computes the model's find_drivers for both strategies, any bound, any forbidden set and any assumption"),
            ("source_drivers_of_succession", "py_drivers_of_succession_spec", "translator tie: the function GENERATED from the current text of control.drivers_of_succession (PySrcControl.v) computes the model's drivers_of_succession (per-step default bound, assumption grown by the LDOI of each step)"),
            ("find_drivers_sound", "find_drivers_sound", "forcing, allowed variables only, within the size bound"),
            ("find_drivers_complete", "find_drivers_complete", "every admissible forcing assignment has a reported driver set on a subset of its variables"),
